@@ -293,6 +293,19 @@ def run_ops(pid, label, harness_args, stdin_path=None, timeout=7200):
     return ops, ver
 
 
+def run_leangen(pid, suite, genargs, tier, seed, timeout=7200):
+    """a suite whose operation lines are written by the Lean side (`ohdriver gen …`: the C05 sentence
+    generator with denotations), executed by the harness on the real code, judged by the driver"""
+    rdir = os.path.join(CACHE, "run")
+    os.makedirs(rdir, exist_ok=True)
+    gen = os.path.join(rdir, f"{pid}.{suite}.gen")
+    with open(gen, "w") as fo:
+        p = subprocess.run([DRIVER] + genargs + [tier, str(seed)], stdout=fo, stderr=subprocess.PIPE, env=ENV, timeout=timeout)
+    if p.returncode != 0:
+        raise RuntimeError(f"driver generator {genargs} failed rc={p.returncode}: {p.stderr.decode(errors='replace')[-2000:]}")
+    return run_ops(pid, suite, ["exec"], stdin_path=gen, timeout=timeout)
+
+
 def run_external(pid, suite, runner, tier, seed, replay=None, timeout=7200):
     """a suite whose operations are executed by more than the harness (C12: CPython + Rust core):
     the runner script prints one verdict line per operation and keeps the joined lines in --out"""
@@ -477,6 +490,8 @@ def main():
             for suite in cfg["suites"]:
                 if suite in cfg.get("runners", {}):
                     o, v = run_external(pid, suite, cfg["runners"][suite], tier, a.seed)
+                elif suite in cfg.get("lean_generators", {}):
+                    o, v = run_leangen(pid, suite, cfg["lean_generators"][suite], tier, a.seed)
                 else:
                     o, v = run_ops(pid, suite, ["run", suite, tier, str(a.seed)])
                 tally.feed(o, v)
@@ -491,6 +506,8 @@ def main():
                     for suite in cfg["suites"]:
                         if suite in cfg.get("runners", {}):
                             o, v = run_external(pid, suite, cfg["runners"][suite], "quick", a.seed + 7919 * k)
+                        elif suite in cfg.get("lean_generators", {}):
+                            o, v = run_leangen(pid, suite + f"-search{k}", cfg["lean_generators"][suite], "quick", a.seed + 7919 * k)
                         else:
                             o, v = run_ops(pid, suite + f"-search{k}", ["run", suite, "quick", str(a.seed + 7919 * k)])
                         tally.feed(o, v, keep_samples=0)
